@@ -123,8 +123,8 @@ Theorem clifford_sim_ok : forall n os,
 Proof. exact ProofsCircuit.clifford_sim_ok. Qed.
 Print Assumptions clifford_sim_ok.
 
-Theorem execute_plain_ok : forall n c l T,
-  sops_of c = Some l -> Forall (sop_valid n) l -> execute_circuit n c = Final T ->
+Theorem execute_plain_ok : forall half n c l T,
+  sops_of c = Some l -> Forall (sop_valid n) l -> execute_circuit_at half n c = Final T ->
   forall w, In w (stabilisers n T) -> row_wf n w /\ stabilises n w (run_spec l psi0).
 Proof. exact ProofsCircuit.execute_plain_ok. Qed.
 Print Assumptions execute_plain_ok.
@@ -227,7 +227,7 @@ Proof. exact ProofsMeasure.rowsum_packed_refuted. Qed.
 Print Assumptions rowsum_packed_refuted.
 
 Theorem determined_refuted : exists n T q, T = witness_T /\ n = 3%nat /\ first_p n q T = None
-                /\ determined_real n T q <> determined_spec n T q.
+                /\ rr (determined_real n T q) <> rr (determined_spec n T q).
 Proof. exact ProofsMeasure.determined_refuted. Qed.
 Print Assumptions determined_refuted.
 
